@@ -462,6 +462,38 @@ def run(prog: Program, col: Collector, tier: str, refs: Optional[Refs] = None, c
                       f.loc(logdets[0]) if logdets else f.loc(st))
     col.cur.analysed["discarded_compression_shifts"] = n6
 
+    # ---------------------------------------------------------------- R14.14 every evaluated term of a Delta counts
+    col.rule("R14.14", "in Delta.eager_subs / eager_reduce nothing computed per term is carried out of the loop over the terms by plain re-assignment (only the last term would count)", floor=1)
+    n14 = 0
+    for fq_ in ("funsor.delta::Delta.eager_subs", "funsor.delta::Delta.eager_reduce"):
+        f = prog.funcs.get(fq_)
+        if f is None:
+            if fq_.endswith("eager_subs"):
+                raise AnalysisError(f"anchor {fq_} not found")
+            continue
+        for lp in walk_no_nested(f.node):
+            if not (isinstance(lp, ast.For) and "terms" in norm(lp.iter)):
+                continue
+            n14 += 1
+            inside = {id(y) for y in ast.walk(lp)}
+            loop_targets = {y.id for y in ast.walk(lp.target) if isinstance(y, ast.Name)}
+            assigned = {}
+            for st in ast.walk(lp):
+                if isinstance(st, ast.Assign) and len(st.targets) == 1 and isinstance(st.targets[0], ast.Name):
+                    nm = st.targets[0].id
+                    if not any(isinstance(y, ast.Name) and y.id == nm for y in ast.walk(st.value)):
+                        assigned.setdefault(nm, st)
+            end = getattr(lp, "end_lineno", lp.lineno)
+            after = {y.id for y in ast.walk(f.node) if isinstance(y, ast.Name) and isinstance(y.ctx, ast.Load) and id(y) not in inside and y.lineno > end}
+            # names that are (re)bound after the loop before being read there are not carried
+            rebound = {t.id for st in walk_no_nested(f.node) if isinstance(st, ast.Assign) and st.lineno > end and id(st) not in inside for t in st.targets if isinstance(t, ast.Name)}
+            carried = sorted(nm for nm in assigned if nm in after and nm not in loop_targets and nm not in rebound)
+            col.check(not carried, f"{f.fq}::for … in {norm(lp.iter)[:30]}", "per-term results are appended / accumulated, never overwritten",
+                      f"`{carried[0] if carried else ''}` is re-assigned in every round of the loop over the terms and read after the loop: only the contribution of the last "
+                      "evaluated term survives, so a Delta with several terms evaluated at several points returns one term's log-density (and 0 mass mismatches of the others are lost)",
+                      f.loc(assigned[carried[0]]) if carried else f.loc(lp))
+    col.cur.analysed["loops_over_delta_terms"] = n14
+
     # ---------------------------------------------------------------- R14.5
     col.rule("R14.5", "nested _sample calls receive the sample inputs unchanged and a key derived from the one received", floor=4)
     n5 = 0
